@@ -656,7 +656,7 @@ func runC17(c *Ctx) {
 	r.Doc("R1", "command channels are unbuffered; the API hands the command over with one plain blocking send", 4)
 	r.Doc("R2", "a received command is applied inside its clause before the clause is left", 2)
 	r.Doc("R3", "removal deletes the table entry; input receives look the channel up afresh (same block as the select)", 3)
-	r.Doc("R4", "(= B11) counters of a removed priority are kept until zero", 1)
+	r.Doc("R4", "(= B11, E3, E4) counters of a removed priority are kept until zero and graceful termination waits for them", 3)
 	r.Doc("R5", "(= X1, D2, P2) replace channel / reset Drained / append if new / re-sort / re-divide", 6)
 	pr, err := resolvePrio(p)
 	if err != nil {
@@ -808,6 +808,10 @@ func runC17(c *Ctx) {
 	// R4
 	sub := &Ctx{V1: c.V1, V2: c.V2, Tier: c.Tier, R: NewReport("tmp", c.Tier)}
 	checkB11(sub, pr)
+	// ... and termination waits for them: the nothing-in-flight predicate ranges over the whole
+	// `actual` map (which outlives removed inputs), and the deferred wait leaves only when it holds
+	c07forall(sub, pr.sr, pr.sr.allZero, "zero")
+	c07waitZero(sub, pr.sr)
 	for _, o := range sub.R.Obls {
 		r.Check(o.OK, "R4", strings.TrimPrefix(o.Key, "B11@"), o.Site, o.Detail, o.Detail)
 	}
